@@ -149,7 +149,9 @@ pub fn all_byte_universes2<F: Fam>(ctx: &Ctx, light: &(dyn Fn(&[u8]) + Sync), he
     }
     // the reference encodings of the value universes (U_val, U_size, U_field, U_thresh; frames < 100,000 bytes):
     // well-formed inputs with every field-value catalogue entry and every relation between fields (DESIGN 0.8)
-    if ctx.prop != "C11" {
+    // (C11 decodes them in its own leg; C03's quick tier leaves them to C06 / C12 / C01, which run the same decoders
+    // on the same frames, to stay inside its time budget)
+    if ctx.prop != "C11" && !(ctx.prop == "C03" && !ctx.thorough()) {
         let t0 = std::time::Instant::now();
         let (u, _) = crate::checks::values::universe(fam, ctx);
         let n = AtomicU64::new(0);
@@ -497,7 +499,7 @@ fn c03_sub_universe<F: Fam>(ctx: &Ctx) {
 }
 
 pub fn c03(ctx: &Ctx) {
-    ctx.set_rule("all byte strings <= 3 (thorough 4) bytes; all complete frames with remaining length <= 2 (3) and all bodies over the 16-byte alphabet B16 up to 5 (6) bytes for the legal control bytes; maximal headers; the complete single-edit neighbourhood N1 (substitution, deletion, insertion, every 16-bit window rewritten as a length, remaining length rewritten to 0..rem+2 and the width boundaries; raw and re-framed) of every U_small frame; splices; legal non-canonical spellings; the malformation catalogue; the reference encodings of the value universes (U_val, U_size, U_field, U_thresh); every prefix of every CONNECT of the OTHER protocol family (U_small); the targeted text universe (every text-bearing field of every packet type, and every pair of them, filled with - thorough tier: all byte strings <= 3 over a 16-byte alphabet, defective strings of 4..129 bytes; both tiers: - strings of 250..1027 bytes made of 1-, 2-, 3- and 4-byte characters at every alignment, clean and with a wildcard / NUL / invalid byte in front or at the end). Entry points: Packet::decode, Header::decode, decode_async, Header::decode_async, PollPacket (always-ready; 1- and 2-byte reads with the future kept / re-created; end of stream mid-way); additionally every public per-body and per-property-set decoder (Connect::decode_async … AuthProperties::decode_async, decode_with_protocol with all three protocols, LastWill, Protocol, decode_raw_header) called directly on all strings <= 2 bytes, B16^3 and the bodies of all small frames with every byte substituted over B16 and every truncation, for six remaining-length arguments. Monitors: panic (incl. overflow checks and debug_assert in the checked profile), pending-without-cause, call budget, init coverage of the returned body buffer by address ranges, type-invariant walker on returned packets, and on returned ERROR values: every text they carry is well-formed UTF-8 and they format without panicking. Non-trivial = inputs that get past header validation");
+    ctx.set_rule("all byte strings <= 3 (thorough 4) bytes; all complete frames with remaining length <= 2 (3) and all bodies over the 16-byte alphabet B16 up to 5 (6) bytes for the legal control bytes; maximal headers; the complete single-edit neighbourhood N1 (substitution, deletion, insertion, every 16-bit window rewritten as a length, remaining length rewritten to 0..rem+2 and the width boundaries; raw and re-framed) of every U_small frame; splices; legal non-canonical spellings; the malformation catalogue; the reference encodings of the value universes (U_val, U_size, U_field, U_thresh; thorough tier - in the quick tier C06 and C12 run the same decoders over them); every prefix of every CONNECT of the OTHER protocol family (U_small); the targeted text universe (every text-bearing field of every packet type, and every pair of them, filled with - thorough tier: all byte strings <= 3 over a 16-byte alphabet, defective strings of 4..129 bytes; both tiers: - strings of 250..1027 bytes made of 1-, 2-, 3- and 4-byte characters at every alignment, clean and with a wildcard / NUL / invalid byte in front or at the end). Entry points: Packet::decode, Header::decode, decode_async, Header::decode_async, PollPacket (always-ready; 1- and 2-byte reads with the future kept / re-created; end of stream mid-way); additionally every public per-body and per-property-set decoder (Connect::decode_async … AuthProperties::decode_async, decode_with_protocol with all three protocols, LastWill, Protocol, decode_raw_header) called directly on all strings <= 2 bytes, B16^3 and the bodies of all small frames with every byte substituted over B16 and every truncation, for six remaining-length arguments. Monitors: panic (incl. overflow checks and debug_assert in the checked profile), pending-without-cause, call budget, init coverage of the returned body buffer by address ranges, type-invariant walker on returned packets, and on returned ERROR values: every text they carry is well-formed UTF-8 and they format without panicking. Non-trivial = inputs that get past header validation");
     fn fam<F: Fam>(ctx: &Ctx) {
         let sw = Sweep { ctx, nontrivial: AtomicU64::new(0), accepted: AtomicU64::new(0) };
         all_byte_universes2::<F>(ctx, &|b| c03_light::<F>(ctx, &sw, b), &|b| c03_heavy::<F>(ctx, b), &|b| c03_heavy_opt::<F>(ctx, b, ctx.thorough()), true);
